@@ -102,6 +102,55 @@ fn observe(chip: &str, sf: usize, bw: usize) -> Result<Option<(bool, Vec<(u8, Op
     Ok(decision.map(|d| (d, out)))
 }
 
+/// SX127x: the LDRO bit shares its register with packet parameters (SX1272: RegModemConfig1). After the
+/// usual sequence set_modulation_params -> set_packet_params the bit in the chip's register file must still
+/// be the decision. Returns (prior register value, bit found) for every mismatch-relevant prior.
+fn after_packet_params(chip: &str, sf: usize, bw: usize) -> Result<Option<(bool, Vec<(u8, bool)>)>, String> {
+    use crate::chips::Sx127xChip;
+    let (s, b) = (SFS[sf], BWS[bw]);
+    let is72 = chip == "sx1272";
+    let mut out = vec![];
+    let mut decision = None;
+    for prior in 0..=255u8 {
+        let mut model = Sx127xChip::new(is72);
+        model.regs[0x01] = 0x81;
+        model.regs[if is72 { 0x1D } else { 0x26 }] = prior;
+        let env = Env::new(Box::new(model));
+        let r: Result<Option<bool>, String> = catch(|| {
+            macro_rules! go {
+                ($radio:expr) => {{
+                    let mut radio = $radio;
+                    match radio.create_modulation_params(s, b, CodingRate::_4_5, 868_100_000) {
+                        Err(_) => None,
+                        Ok(mp) => {
+                            // implicit header for SF6 (the only form the chip supports there)
+                            let pp = radio.create_packet_params(8, s == lora_modulation::SpreadingFactor::_6, 12, true, false, &mp);
+                            match pp {
+                                Err(_) => None,
+                                Ok(pp) => {
+                                    let a = drive(radio.set_modulation_params(&mp));
+                                    let b2 = drive(radio.set_packet_params(&pp));
+                                    if matches!((a, b2), (Some(Ok(())), Some(Ok(())))) { Some(mp.low_data_rate_optimize != 0) } else { None }
+                                }
+                            }
+                        }
+                    }
+                }};
+            }
+            if is72 {
+                go!(sx127x::Sx127x::new(env.spi(), env.iv(), sx127x::Config { chip: sx127x::Sx1272, tcxo_used: false, tx_boost: false, rx_boost: false }))
+            } else {
+                go!(sx127x::Sx127x::new(env.spi(), env.iv(), sx127x::Config { chip: sx127x::Sx1276, tcxo_used: false, tx_boost: false, rx_boost: false }))
+            }
+        });
+        let Some(d) = r? else { return Ok(None) };
+        decision = Some(d);
+        let bit = env.with_chip::<Sx127xChip, _>(|c| if is72 { c.regs[0x1D] & 0x01 != 0 } else { c.regs[0x26] & 0x08 != 0 });
+        out.push((prior, bit));
+    }
+    Ok(decision.map(|d| (d, out)))
+}
+
 pub fn eval(c: &Case) -> Vec<(String, String)> {
     let mut v = vec![];
     let sf = SFS[c.sf].factor();
@@ -113,6 +162,20 @@ pub fn eval(c: &Case) -> Vec<(String, String)> {
         Err(p) => v.push((format!("C15|{tag}|panic|{}", panic_site(&p)), p)),
         Ok(None) => {}
         Ok(Some((decision, bits))) => {
+            if c.chip == "sx1272" || c.chip == "sx1276" {
+                match after_packet_params(&c.chip, c.sf, c.bw) {
+                    Err(p) => v.push((format!("C15|{tag}|panic|{}", panic_site(&p)), p)),
+                    Ok(None) => {}
+                    Ok(Some((d, regs))) => {
+                        if let Some((prior, bit)) = regs.into_iter().find(|(_, bit)| *bit != d) {
+                            v.push((
+                                format!("C15|{tag}|register-bit-after-packet-params-differs-from-decision"),
+                                format!("decision {d}, LDRO bit in the chip's register after set_modulation_params + set_packet_params: {bit} (register held {prior:#x} before)"),
+                            ));
+                        }
+                    }
+                }
+            }
             if nominal == exact {
                 if decision != exact {
                     v.push((
@@ -167,7 +230,7 @@ pub fn run(tier: Tier, replay: Option<&str>) {
     let coverage = json!({
         "evaluations": ctx.evals(),
         "distinct_nontrivial": supported,
-        "rule": "all 8 spreading factors x 10 bandwidths x {airtime calculator, SX1261, SX1262, STM32WL LP/HP, SX1272, SX1276, LR1110}; for every pair the chip accepts: the decision in ModulationParams / BaseBandModulationParams and the LDRO bit actually written on SPI by set_modulation_params (for the register-based SX127x with all 256 prior values of the read-modify-write register) against the exact rational rule 2^SF/BW >= 16.38 ms; non-trivial = pairs the chip supports",
+        "rule": "all 8 spreading factors x 10 bandwidths x {airtime calculator, SX1261, SX1262, STM32WL LP/HP, SX1272, SX1276, LR1110}; for every pair the chip accepts: the decision in ModulationParams / BaseBandModulationParams and the LDRO bit actually written on SPI by set_modulation_params (for the register-based SX127x with all 256 prior values of the read-modify-write register) against the exact rational rule 2^SF/BW >= 16.38 ms; for the SX127x additionally the bit left in the chip model's register file after the usual set_modulation_params -> set_packet_params sequence; non-trivial = pairs the chip supports",
         "samples": [serde_json::to_value(Case { chip: "sx1276".into(), sf: 6, bw: 7 }).unwrap(), serde_json::to_value(Case { chip: "sx1262".into(), sf: 7, bw: 6 }).unwrap()],
         "exhaustive": true,
         "pairs_supported": supported,
